@@ -7,7 +7,7 @@ use arrow_schema::{DataType, Field, Schema, SchemaRef, TimeUnit};
 use cardinalsin::adaptive_index::{AdaptiveIndexConfig, AdaptiveIndexController, IndexType};
 use cardinalsin::compactor::{Compactor, CompactorConfig};
 use cardinalsin::ingester::{Ingester, IngesterConfig};
-use cardinalsin::metadata::{LocalMetadataClient, MetadataClient, ObjectStoreMetadataClient, ObjectStoreMetadataConfig};
+use cardinalsin::metadata::{ColumnPredicate, ColumnStats, LocalMetadataClient, MetadataClient, ObjectStoreMetadataClient, ObjectStoreMetadataConfig};
 use cardinalsin::query::{QueryConfig, QueryNode};
 use cardinalsin::schema::MetricSchema;
 use cardinalsin::StorageConfig;
@@ -34,6 +34,10 @@ pub struct DsCfg {
     pub adaptive: bool,
     pub flush_rows: usize,
     pub n_rows: usize,
+    /// truthful column statistics planted into the catalog (object-store backend only)
+    pub stats: bool,
+    /// rows written in ascending timestamp order in batches of 1-2: chunks lie inside one clock hour
+    pub narrow: bool,
 }
 
 pub struct Env {
@@ -46,6 +50,8 @@ pub struct Env {
     pub reference: SessionContext,
     pub chunks: usize,
     pub compaction_result: String,
+    /// number of catalog entries that received planted statistics
+    pub stats_planted: usize,
 }
 
 fn schema_for(kind: TsKind) -> SchemaRef {
@@ -106,7 +112,20 @@ fn gen_rows(rng: &mut Rng, cfg: &DsCfg) -> Vec<Row> {
                         _ => rng.range_i64(0, H - 1),
                     }
                 }
-                _ => 1_700_000_000_000_000_000 + rng.range_i64(0, 12) * (H / 4) + rng.range_i64(0, 3) * 1000,
+                2 => 1_700_000_000_000_000_000 + rng.range_i64(0, 12) * (H / 4) + rng.range_i64(0, 3) * 1000,
+                // pre-epoch: around -1 h, -1 ns, 0, hour boundaries +-1, clusters inside one negative clock hour
+                _ => match rng.below(8) {
+                    0 => -H + *rng.pick(&[-1i64, 0, 1]),
+                    1 => *rng.pick(&[-1i64, 0, 1]),
+                    2 => rng.range_i64(-3, 2) * H + *rng.pick(&[-1i64, 0, 1]),
+                    // -90 min .. -70 min: inside the clock hour [-2 h, -1 h)
+                    3 | 4 => -5_400_000_000_000 + rng.range_i64(0, 20) * 60_000_000_000,
+                    // -40 min .. -10 min: inside [-1 h, 0)
+                    5 => -2_400_000_000_000 + rng.range_i64(0, 30) * 60_000_000_000,
+                    // -170 min .. -130 min: inside [-3 h, -2 h)
+                    6 => -10_200_000_000_000 + rng.range_i64(0, 40) * 60_000_000_000,
+                    _ => rng.range_i64(-3 * H, 2 * H),
+                },
             },
             TsKind::Nano => {
                 if rng.chance(1, 6) {
@@ -133,10 +152,14 @@ fn gen_rows(rng: &mut Rng, cfg: &DsCfg) -> Vec<Row> {
 pub async fn build_env(rng: &mut Rng, cfg: &DsCfg, rows: Vec<Row>, groups: Option<Vec<Vec<usize>>>) -> Result<Env, String> {
     let store = Arc::new(InMemory::new());
     let storage = StorageConfig::default();
-    let metadata: Arc<dyn MetadataClient> = if cfg.object_store_backend {
-        Arc::new(ObjectStoreMetadataClient::new(store.clone() as Arc<dyn ObjectStore>, ObjectStoreMetadataConfig::default()))
+    let os_client: Option<Arc<ObjectStoreMetadataClient>> = if cfg.object_store_backend {
+        Some(Arc::new(ObjectStoreMetadataClient::new(store.clone() as Arc<dyn ObjectStore>, ObjectStoreMetadataConfig::default())))
     } else {
-        Arc::new(LocalMetadataClient::new())
+        None
+    };
+    let metadata: Arc<dyn MetadataClient> = match &os_client {
+        Some(c) => c.clone(),
+        None => Arc::new(LocalMetadataClient::new()),
     };
     let mut icfg = IngesterConfig { flush_row_count: cfg.flush_rows, ..Default::default() };
     icfg.wal.enabled = false;
@@ -144,7 +167,7 @@ pub async fn build_env(rng: &mut Rng, cfg: &DsCfg, rows: Vec<Row>, groups: Optio
 
     // write order: shuffled, ascending or descending timestamps
     let mut order: Vec<usize> = (0..rows.len()).collect();
-    match rng.below(3) {
+    match if cfg.narrow { 1 } else { rng.below(3) } {
         0 => {
             for i in (1..order.len()).rev() {
                 let j = rng.below(i as u64 + 1) as usize;
@@ -161,7 +184,8 @@ pub async fn build_env(rng: &mut Rng, cfg: &DsCfg, rows: Vec<Row>, groups: Optio
             let mut g = Vec::new();
             let mut i = 0;
             while i < order.len() {
-                let n = rng.range_usize(1, 4).min(order.len() - i);
+                let max_batch = if cfg.narrow || cfg.stats { 2 } else { 4 };
+                let n = rng.range_usize(1, max_batch).min(order.len() - i);
                 g.push(order[i..i + n].to_vec());
                 i += n;
             }
@@ -188,6 +212,12 @@ pub async fn build_env(rng: &mut Rng, cfg: &DsCfg, rows: Vec<Row>, groups: Optio
         };
     }
     let chunks = metadata.list_chunks().await.map_err(|e| e.to_string())?.len();
+    let mut stats_planted = 0;
+    if cfg.stats {
+        if let Some(c) = &os_client {
+            stats_planted = plant_stats(&store, c, &rows).await?;
+        }
+    }
 
     let reference = SessionContext::new();
     let table = MemTable::try_new(schema_for(cfg.kind), vec![batches.clone()]).map_err(|e| e.to_string())?;
@@ -196,7 +226,63 @@ pub async fn build_env(rng: &mut Rng, cfg: &DsCfg, rows: Vec<Row>, groups: Optio
     let mut vals: Vec<i64> = rows.iter().map(|r| r.ts).collect();
     vals.sort();
     vals.dedup();
-    Ok(Env { cfg: cfg.clone(), rows, vals, store, metadata, storage, reference, chunks, compaction_result })
+    Ok(Env { cfg: cfg.clone(), rows, vals, store, metadata, storage, reference, chunks, compaction_result, stats_planted })
+}
+
+/// truthful min/max statistics of the label / value columns over a set of rows
+pub fn truthful_stats(rows: &[&Row]) -> std::collections::HashMap<String, ColumnStats> {
+    let mut m = std::collections::HashMap::new();
+    let mut put_str = |name: &str, vals: Vec<Option<&str>>| {
+        let present: Vec<&str> = vals.iter().flatten().copied().collect();
+        if let (Some(mn), Some(mx)) = (present.iter().min(), present.iter().max()) {
+            m.insert(name.to_string(), ColumnStats { min: json!(mn), max: json!(mx), has_nulls: present.len() < vals.len() });
+        }
+    };
+    put_str("host", rows.iter().map(|r| r.host.as_deref()).collect());
+    put_str("env", rows.iter().map(|r| r.env.as_deref()).collect());
+    put_str("metric_name", rows.iter().map(|r| Some(r.metric.as_str())).collect());
+    let vf: Vec<f64> = rows.iter().filter_map(|r| r.vf).collect();
+    if !vf.is_empty() {
+        let mn = vf.iter().cloned().fold(f64::INFINITY, f64::min);
+        let mx = vf.iter().cloned().fold(f64::NEG_INFINITY, f64::max);
+        m.insert("value_f64".to_string(), ColumnStats { min: json!(mn), max: json!(mx), has_nulls: vf.len() < rows.len() });
+    }
+    if let (Some(mn), Some(mx)) = (rows.iter().map(|r| r.id).min(), rows.iter().map(|r| r.id).max()) {
+        m.insert("value_i64".to_string(), ColumnStats { min: json!(mn), max: json!(mx), has_nulls: false });
+    }
+    m
+}
+
+/// Reads every live chunk file back, computes the statistics of the rows it
+/// really holds and stores them in the catalog (public load/save_chunk_metadata).
+async fn plant_stats(store: &Arc<InMemory>, client: &Arc<ObjectStoreMetadataClient>, rows: &[Row]) -> Result<usize, String> {
+    use parquet::arrow::arrow_reader::ParquetRecordBatchReaderBuilder;
+    let mut meta = client.load_chunk_metadata().await.map_err(|e| format!("load_chunk_metadata: {}", e))?;
+    let mut planted = 0;
+    for (path, ext) in meta.iter_mut() {
+        let bytes = store
+            .get(&object_store::path::Path::from(path.as_str()))
+            .await
+            .map_err(|e| format!("read chunk {}: {}", path, e))?
+            .bytes()
+            .await
+            .map_err(|e| e.to_string())?;
+        let reader = ParquetRecordBatchReaderBuilder::try_new(bytes).map_err(|e| e.to_string())?.build().map_err(|e| e.to_string())?;
+        let mut ids: Vec<usize> = Vec::new();
+        for b in reader {
+            let b = b.map_err(|e| e.to_string())?;
+            let col = b.column_by_name("value_i64").ok_or("chunk without value_i64")?;
+            let a = col.as_any().downcast_ref::<Int64Array>().ok_or("value_i64 not Int64")?;
+            for i in 0..a.len() {
+                ids.push(a.value(i) as usize);
+            }
+        }
+        let held: Vec<&Row> = ids.iter().filter_map(|i| rows.get(*i)).collect();
+        ext.column_stats = truthful_stats(&held);
+        planted += 1;
+    }
+    client.save_chunk_metadata(&meta).await.map_err(|e| format!("save_chunk_metadata: {}", e))?;
+    Ok(planted)
 }
 
 pub async fn new_node(env: &Env, adaptive: bool) -> QueryNode {
@@ -261,10 +347,12 @@ pub async fn run_reference(env: &Env, sql: &str) -> Answer {
     }
 }
 
+/// `b` is the full-scan answer.  A statement whose full scan is itself an error
+/// (e.g. a UInt64 literal that cannot be cast) is outside the family: not judged.
 fn same(a: &Answer, b: &Answer) -> bool {
     match (a, b) {
         (Ok(x), Ok(y)) => x == y,
-        (Err(_), Err(_)) => true,
+        (_, Err(_)) => true,
         _ => false,
     }
 }
@@ -283,6 +371,14 @@ fn bx(p: P) -> Box<P> {
 
 fn pick_pair(rng: &mut Rng, env: &Env) -> (i64, i64) {
     let g = Gen { int: true, uint: false, ts_lit: false, now: false, others: vec![], atoms: vec![], vals: env.vals.clone(), extremes: false };
+    if rng.chance(1, 4) && !env.vals.is_empty() {
+        // a window inside the clock hour of a row (floor hour: also before the epoch)
+        let v = *rng.pick(&env.vals);
+        let floor = v.div_euclid(H).saturating_mul(H);
+        let a = v.saturating_sub(rng.range_i64(0, 5) * 60_000_000_000).max(floor);
+        let b = v.saturating_add(rng.range_i64(0, 5) * 60_000_000_000).min(floor.saturating_add(H - 1));
+        return (a.min(b), a.max(b));
+    }
     let a = gen_value(rng, &g);
     let b = match rng.below(6) {
         0 => a,
@@ -349,7 +445,7 @@ fn extra_gen(env: &Env) -> Gen {
 pub fn gen_query(rng: &mut Rng, env: &Env) -> UnitCase {
     let g = extra_gen(env);
     let w = gen_window(rng, env);
-    let shape = *rng.pick(&[0usize, 0, 0, 1, 2, 3, 4, 5, 5, 6, 8]);
+    let shape = *rng.pick(&[0usize, 0, 0, 1, 2, 3, 4, 5, 5, 5, 6, 6, 8]);
     let extra = |rng: &mut Rng| {
         if rng.chance(1, 3) {
             gen_biased(rng, &g)
@@ -358,14 +454,47 @@ pub fn gen_query(rng: &mut Rng, env: &Env) -> UnitCase {
             gen_pred(rng, &g, depth)
         }
     };
+    let conv_atoms = [0usize, 2, 3, 4, 5, 6, 7, 8, 11, 13, 14];
+    let nonconv_atoms = [1usize, 9, 10, 12];
+    let ga = Gen { int: false, uint: false, ts_lit: false, now: false, others: vec![], atoms: conv_atoms.to_vec(), vals: vec![], extremes: false };
+    // a predicate mixing label comparisons with timestamp comparisons (what the pushdown extraction must not strengthen)
+    let label_mix = |rng: &mut Rng| -> P {
+        let lab = P::Label(*rng.pick(&conv_atoms));
+        let non = P::Label(*rng.pick(&nonconv_atoms));
+        let cut = {
+            let gi = Gen { int: g.int, uint: false, ts_lit: false, now: g.now, others: g.others.clone(), atoms: vec![], vals: env.vals.clone(), extremes: false };
+            let l = gen_lit(rng, &gi);
+            if rng.chance(1, 2) { P::Cmp(*rng.pick(&[Op::Ge, Op::Lt, Op::Le, Op::Gt]), l) } else { P::CmpR(*rng.pick(&[Op::Ge, Op::Lt]), l) }
+        };
+        match rng.below(9) {
+            0 => P::Or(bx(lab), bx(cut)),
+            1 => P::Or(bx(cut), bx(lab)),
+            2 => P::Or(bx(lab), bx(non)),
+            3 => P::Or(bx(non), bx(lab)),
+            4 => P::Not(bx(P::And(bx(lab), bx(cut)))),
+            5 => P::Or(bx(P::And(bx(lab), bx(cut.clone()))), bx(P::Not(bx(cut)))),
+            6 => P::Or(bx(lab), bx(P::Or(bx(P::Label(*rng.pick(&conv_atoms))), bx(cut)))),
+            7 => gen_labels_only(rng, &ga, 3),
+            _ => P::And(bx(lab), bx(P::Or(bx(P::Label(*rng.pick(&conv_atoms))), bx(non)))),
+        }
+    };
+    let mix_mode = rng.chance(1, if env.cfg.stats { 2 } else { 5 });
     let filters = if shape == 5 || shape == 6 {
         // two Filter nodes: the window in one of them
-        let other = extra(rng);
+        let other = if mix_mode { label_mix(rng) } else { extra(rng) };
         if rng.chance(1, 2) {
             vec![w, other]
         } else {
             vec![other, w]
         }
+    } else if mix_mode {
+        let m = label_mix(rng);
+        let p = match rng.below(3) {
+            0 => P::And(bx(w), bx(m)),
+            1 => P::And(bx(m), bx(w)),
+            _ => P::And(bx(P::And(bx(extra(rng)), bx(w))), bx(m)),
+        };
+        vec![p.clone(), p]
     } else {
         let p = match rng.below(5) {
             0 => w,
@@ -543,22 +672,34 @@ fn where_of_sql(sql: &str) -> &str {
 }
 
 fn ds_cfg(rng: &mut Rng, d: usize) -> DsCfg {
-    // the first four datasets cover the product kind x backend x compaction x adaptive
+    // even = Int64 timestamps, odd = Timestamp(ns); d % 4 >= 2 = object-store metadata backend.
+    // Int64 classes by d/2: small values, pre-epoch (object store), pre-epoch (in memory),
+    // hour boundaries (object store), hour boundaries (in memory), 2023-scale values
     let kind = if d % 2 == 0 { TsKind::Int } else { TsKind::Nano };
+    let class = match kind {
+        TsKind::Int => [0u64, 3, 3, 1, 1, 2][(d / 2) % 6],
+        TsKind::Nano => 0,
+    };
+    let object_store_backend = d % 4 >= 2;
+    let stats = object_store_backend && d % 12 != 10;
+    let narrow = class == 3 || (stats && d % 3 == 0);
     DsCfg {
         kind,
-        class: (d as u64 / 2) % 3,
-        object_store_backend: d % 4 >= 2,
-        compaction: d % 4 == 1 || d % 4 == 2,
+        class,
+        object_store_backend,
+        compaction: d % 4 == 1 || d % 8 == 6,
         adaptive: d % 3 == 0,
-        flush_rows: *rng.pick(&[1usize, 2, 3, 5]),
-        n_rows: rng.range_usize(28, 48),
+        flush_rows: if narrow || stats { *rng.pick(&[1usize, 2]) } else { *rng.pick(&[1usize, 2, 3, 5]) },
+        n_rows: if stats { rng.range_usize(24, 36) } else { rng.range_usize(28, 48) },
+        stats,
+        narrow,
     }
 }
 
 fn cfg_json(c: &DsCfg) -> serde_json::Value {
     json!({"kind": format!("{:?}", c.kind), "class": c.class, "object_store_backend": c.object_store_backend,
-           "compaction": c.compaction, "adaptive": c.adaptive, "flush_rows": c.flush_rows, "n_rows": c.n_rows})
+           "compaction": c.compaction, "adaptive": c.adaptive, "flush_rows": c.flush_rows, "n_rows": c.n_rows,
+           "planted_column_stats": c.stats, "narrow_chunks": c.narrow})
 }
 
 pub async fn run_dataset(seed: u64, d: usize, n_queries: usize, only_query: Option<usize>, model: &mut Model, report: &mut Report) -> bool {
@@ -580,12 +721,25 @@ pub async fn run_dataset(seed: u64, d: usize, n_queries: usize, only_query: Opti
     if cfg.adaptive {
         report.bump("e2e.dataset.adaptive_indexing");
     }
+    if cfg.stats {
+        report.bump("e2e.dataset.planted_column_stats");
+        report.bump_by("e2e.chunks_with_planted_stats", env.stats_planted as u64);
+    }
+    if cfg.kind == TsKind::Int {
+        report.bump(&format!("e2e.dataset.int_class.{}", cfg.class));
+        if env.rows.iter().any(|r| r.ts < 0) {
+            report.bump(if cfg.object_store_backend { "e2e.dataset.pre_epoch.object_store" } else { "e2e.dataset.pre_epoch.in_memory" });
+        }
+    }
     report.bump_by("e2e.chunks", env.chunks as u64);
     report.bump_by("e2e.rows", env.rows.len() as u64);
     let warm = new_node(&env, cfg.adaptive).await;
     let mut all_ok = true;
     for q in 0..n_queries {
         let mut qr = rng.fork();
+        if only_query.is_none() && unclassified(report) >= MAX_UNCLASSIFIED {
+            break;
+        }
         if let Some(only) = only_query {
             if only != q {
                 continue;
@@ -598,6 +752,17 @@ pub async fn run_dataset(seed: u64, d: usize, n_queries: usize, only_query: Opti
         let sql = unit_sql(&case);
         let (out, reference) = check_query(&env, &warm, &sql, &where_of(&case), q % 4 == 0 || only_query.is_some(), model, report).await;
         report.impl_runs += 1;
+        // is the statistics gate live for this statement?
+        if let (Ok(tr), Ok(preds)) = (warm.engine.extract_time_range(&sql).await, warm.engine.extract_column_predicates(&sql).await) {
+            if !preds.is_empty() {
+                report.bump("e2e.query.predicates_pushed_down");
+                let with = env.metadata.get_chunks_with_predicates(tr.clone(), &preds).await.map(|v| v.len()).unwrap_or(0);
+                let without = env.metadata.get_chunks(tr).await.map(|v| v.len()).unwrap_or(0);
+                if with < without {
+                    report.bump("e2e.query.gate_pruned_a_chunk");
+                }
+            }
+        }
         let nontrivial = matches!(&reference, Ok(rows) if !rows.is_empty());
         let key = format!("e2e|{}|{}", d, sql);
         report.case(if nontrivial { Some(&key) } else { None });
@@ -609,7 +774,7 @@ pub async fn run_dataset(seed: u64, d: usize, n_queries: usize, only_query: Opti
                 if std::env::var("VERIF_DEBUG").is_ok() {
                     eprintln!("both-error: {} :: {}", sql, e);
                 }
-                report.bump("e2e.answer.error_on_both")
+                report.bump("e2e.answer.full_scan_is_an_error")
             }
         }
         for f in &case.filters {
@@ -695,7 +860,7 @@ pub async fn run_corpus(model: &mut Model, report: &mut Report) {
             id: i as i64,
         })
         .collect();
-    let cfg = DsCfg { kind: TsKind::Int, class: 0, object_store_backend: false, compaction: false, adaptive: false, flush_rows: 1, n_rows: rows.len() };
+    let cfg = DsCfg { kind: TsKind::Int, class: 0, object_store_backend: false, compaction: false, adaptive: false, flush_rows: 1, n_rows: rows.len(), stats: false, narrow: false };
     let mut rng = Rng::new(1);
     let env = match build_env(&mut rng, &cfg, rows, Some(vec![vec![0, 1, 2], vec![3, 4, 5], vec![6, 7]])).await {
         Ok(e) => e,
@@ -750,11 +915,24 @@ pub async fn run_corpus(model: &mut Model, report: &mut Report) {
     }
 }
 
+/// concrete failing inputs outside every known class: the run stops after about ten
+pub fn unclassified(report: &Report) -> usize {
+    report.oracle_violations.iter().filter(|v| v["class"].as_str().unwrap_or("") == "").count()
+}
+pub const MAX_UNCLASSIFIED: usize = 10;
+
 pub async fn run_all(args: &Args, model: &mut Model, report: &mut Report) {
     let (n_datasets, n_queries) = if args.thorough() { (60, 50) } else { (12, 36) };
     run_corpus(model, report).await;
+    report.write(&args.out);
     for d in 0..n_datasets {
+        if unclassified(report) >= MAX_UNCLASSIFIED {
+            report.notes.push(format!("stopped before dataset {}: {} unclassified findings", d, unclassified(report)));
+            break;
+        }
         run_dataset(args.seed, d, n_queries, None, model, report).await;
+        // incremental report: a timeout still leaves what was found so far
+        report.write(&args.out);
     }
 }
 
@@ -780,10 +958,10 @@ pub async fn replay(case: &serde_json::Value, model: &mut Model) -> i32 {
 
 /// For a unit-level disagreement: does it make the pipeline answer wrong on a
 /// concrete dataset (one row per chunk at and around the literals)?
-pub async fn oracle_for_unit(case: &UnitCase) -> bool {
-    let fs = visible_filters(case);
+pub async fn oracle_for_unit(case: &UnitCase) -> Option<String> {
+    let fs: Vec<P> = visible_filters(case).into_iter().filter(|f| *f != P::Label(HAVING_ATOM)).collect();
     if fs.is_empty() {
-        return false;
+        return None;
     }
     let mut lits = Vec::new();
     for f in &fs {
@@ -805,7 +983,7 @@ pub async fn oracle_for_unit(case: &UnitCase) -> bool {
         .enumerate()
         .map(|(i, t)| Row { ts: *t, metric: "cpu".into(), host: Some("h1".into()), env: Some("prod".into()), vf: Some(1.0), id: i as i64 })
         .collect();
-    let cfg = DsCfg { kind: TsKind::Int, class: 0, object_store_backend: false, compaction: false, adaptive: false, flush_rows: 1, n_rows: rows.len() };
+    let cfg = DsCfg { kind: TsKind::Int, class: 0, object_store_backend: false, compaction: false, adaptive: false, flush_rows: 1, n_rows: rows.len(), stats: false, narrow: false };
     let mut rng = Rng::new(7);
     // one row per batch so that every row is its own chunk
     let env = {
@@ -819,17 +997,17 @@ pub async fn oracle_for_unit(case: &UnitCase) -> bool {
         for r in &rows {
             let b = batch_of(TsKind::Int, &[r]);
             if ing.write(b.clone()).await.is_err() {
-                return false;
+                return None;
             }
             batches.push(b);
         }
         let reference = SessionContext::new();
-        let Ok(table) = MemTable::try_new(schema_for(TsKind::Int), vec![batches]) else { return false };
+        let Ok(table) = MemTable::try_new(schema_for(TsKind::Int), vec![batches]) else { return None };
         if reference.register_table("metrics", Arc::new(table)).is_err() {
-            return false;
+            return None;
         }
         let _ = &mut rng;
-        Env { cfg, rows, vals: ts.clone(), store, metadata, storage, reference, chunks: ts.len(), compaction_result: "none".into() }
+        Env { cfg, rows, vals: ts.clone(), store, metadata, storage, reference, chunks: ts.len(), compaction_result: "none".into(), stats_planted: 0 }
     };
     let node = new_node(&env, false).await;
     // bind the data schema first (keeps the known empty-selection class out of this probe)
@@ -851,8 +1029,105 @@ pub async fn oracle_for_unit(case: &UnitCase) -> bool {
         let a = run_node(&node, &sql).await;
         let b = run_reference(&env, &sql).await;
         if !same(&a, &b) {
-            return true;
+            return Some(format!("{}  [one row per chunk at timestamps {:?}: QueryNode -> {:?}, full scan -> {:?}]", sql, ts, a, b));
         }
     }
-    false
+    None
+}
+
+/// The statistics gate of get_chunks_with_predicates on the predicates the
+/// implementation extracted, judged against rows: a chunk (one row, truthful
+/// min/max statistics) that the gate prunes must not hold a row on which every
+/// visible filter is TRUE (harness three-valued evaluator; DataFusion when the
+/// clause is outside the evaluable fragment and `use_engine` is set).
+pub async fn gate_oracle(case: &UnitCase, preds: &[ColumnPredicate], use_engine: bool) -> Option<serde_json::Value> {
+    if preds.is_empty() {
+        return None;
+    }
+    let fs: Vec<P> = visible_filters(case).into_iter().filter(|f| *f != P::Label(HAVING_ATOM)).collect();
+    let mut lits = Vec::new();
+    for f in &fs {
+        f.lits(&mut lits);
+    }
+    let mut ts: Vec<i64> = vec![0];
+    for l in &lits {
+        if let Some(v) = l.as_i64() {
+            for d in [-1i64, 0, 1] {
+                ts.push(v.saturating_add(d));
+            }
+        }
+    }
+    ts.sort();
+    ts.dedup();
+    ts.truncate(7);
+    let mut rows: Vec<Row> = Vec::new();
+    for t in &ts {
+        for host in [None, Some("h0"), Some("h1"), Some("h2"), Some("h10")] {
+            for env in [None, Some("prod"), Some("dev")] {
+                for metric in ["cpu", "disk"] {
+                    for vf in [None, Some(1.0f64), Some(2.0), Some(3.5)] {
+                        let id = rows.len() as i64;
+                        rows.push(Row { ts: *t, metric: metric.to_string(), host: host.map(|s| s.to_string()), env: env.map(|s| s.to_string()), vf, id });
+                    }
+                }
+            }
+        }
+    }
+    // which rows satisfy every filter
+    let mut sat: Vec<bool> = Vec::with_capacity(rows.len());
+    let mut evaluable = true;
+    for r in &rows {
+        let mut all = true;
+        for f in &fs {
+            match f.eval(r) {
+                Ok(Some(true)) => {}
+                Ok(_) => {
+                    all = false;
+                    break;
+                }
+                Err(()) => {
+                    evaluable = false;
+                    break;
+                }
+            }
+        }
+        if !evaluable {
+            break;
+        }
+        sat.push(all);
+    }
+    if !evaluable {
+        if !use_engine || case.mode != Mode::Sql {
+            return None;
+        }
+        let refs: Vec<&Row> = rows.iter().collect();
+        let ctx = SessionContext::new();
+        let table = MemTable::try_new(schema_for(TsKind::Int), vec![vec![batch_of(TsKind::Int, &refs)]]).ok()?;
+        ctx.register_table("metrics", Arc::new(table)).ok()?;
+        let where_ = fs.iter().map(|f| format!("({})", f.sql())).collect::<Vec<_>>().join(" AND ");
+        let batches = ctx.sql(&format!("SELECT value_i64 FROM metrics WHERE {}", where_)).await.ok()?.collect().await.ok()?;
+        sat = vec![false; rows.len()];
+        for b in &batches {
+            let ids = b.column(0).as_any().downcast_ref::<Int64Array>()?;
+            for i in 0..ids.len() {
+                sat[ids.value(i) as usize] = true;
+            }
+        }
+    }
+    for (r, s) in rows.iter().zip(sat.iter()) {
+        if !*s {
+            continue;
+        }
+        let stats = truthful_stats(&[r]);
+        if !preds.iter().all(|p| p.evaluate_against_stats(&stats)) {
+            return Some(json!({
+                "pushed_down_predicates": preds.iter().map(|p| format!("{:?}", p)).collect::<Vec<_>>(),
+                "where": fs.iter().map(|f| f.sql()).collect::<Vec<_>>(),
+                "row": {"timestamp": r.ts, "metric_name": r.metric, "host": r.host, "env": r.env, "value_f64": r.vf},
+                "chunk_statistics": stats.iter().map(|(k, v)| (k.clone(), json!({"min": v.min, "max": v.max, "has_nulls": v.has_nulls}))).collect::<serde_json::Map<_, _>>(),
+                "verdict": "the gate prunes a one-row chunk whose row satisfies every filter of the statement",
+            }));
+        }
+    }
+    None
 }
